@@ -54,7 +54,7 @@ var theCA e2eCA
 // (SSL_CERT_FILE), because connectAndServe dials with the default root pool.
 func setupCA() error {
 	theCA.once.Do(func() {
-		dir, err := os.MkdirTemp(scratchRoot, "verifsim-ca-")
+		dir, err := scratchDir("ca")
 		if err != nil {
 			theCA.err = err
 			return
